@@ -77,6 +77,15 @@ func buildIntrinsics() map[string]Intrinsic {
 		st.extra["threads"] = &TupleV{E: append(append([]Value{}, old...), ci.Args[0])}
 		return val(nil)
 	}
+	m[hp+"verifKeep"] = func(e *Exec, st *State, ci *CallInfo) Outcome { return val(ci.Args[0]) }
+	m[hp+"verifYield"] = func(e *Exec, st *State, ci *CallInfo) Outcome {
+		if ci.deferredCall {
+			return val(nil)
+		}
+		return e.schedYield(st)
+	}
+	m[hp+"verifAtomicBegin"] = func(e *Exec, st *State, ci *CallInfo) Outcome { return val(nil) }
+	m[hp+"verifAtomicEnd"] = func(e *Exec, st *State, ci *CallInfo) Outcome { return val(nil) }
 	m[hp+"verifRunSchedules"] = func(e *Exec, st *State, ci *CallInfo) Outcome {
 		pre, ok := ci.Args[0].(*sym.Term).ConstVal()
 		if !ok {
@@ -130,6 +139,7 @@ func buildIntrinsics() map[string]Intrinsic {
 					known = k.ID
 				}
 			}
+			st.mayFail = true
 			e.Res.Violations = append(e.Res.Violations, Violation{Msg: msg, Known: known, Inputs: in, PathTag: f.Kind})
 		}
 		st.Covers = append(st.Covers, "threads-analysed")
@@ -371,6 +381,7 @@ func inAssert(e *Exec, st *State, ci *CallInfo) Outcome {
 		m, err := e.S.Model()
 		if err == nil {
 			e.selfCheckModel(st, m, neg)
+			st.mayFail = true
 			r.Violations = append(r.Violations, Violation{Msg: msg, Inputs: e.InputsUnder(st, sym.NewEvaluator(m)), PathTag: tag})
 		} else {
 			r.Inconclusive = append(r.Inconclusive, "model: "+err.Error())
@@ -391,6 +402,7 @@ func inAssert(e *Exec, st *State, ci *CallInfo) Outcome {
 		case smt.Sat:
 			m, err := e.S.Model()
 			if err == nil {
+				st.mayFail = true
 				r.Violations = append(r.Violations, Violation{Msg: msg, Known: k.ID, Inputs: e.InputsUnder(st, sym.NewEvaluator(m)), PathTag: tag})
 			}
 		case smt.Unknown:
